@@ -66,6 +66,11 @@ SameM(x, y) == x.root = y.root /\ x.task = y.task /\ x.msg = y.msg
 PutI(d, r) == [d EXCEPT !.i = {x \in @ : ~SameI(x, r)} \cup {r}]
 PutP(d, r) == [d EXCEPT !.p = {x \in @ : ~SameP(x, r)} \cup {r}]
 PutM(d, r) == [d EXCEPT !.m = {x \in @ : ~SameM(x, r)} \cup {r}]
+\* mysql.go:342 INSERT ... ON DUPLICATE KEY UPDATE sets the three position columns only: an existing row keeps its
+\* collection_name (differs from PutP only when the written record was read from another row, i.e. under likeRaw)
+PutPB(be, d, r) == LET old == {x \in d.p : SameP(x, r)} IN
+                   IF be = "mysql" /\ old # {} THEN PutP(d, [r EXCEPT !.name = (CHOOSE x \in old : TRUE).name])
+                   ELSE PutP(d, r)
 
 \* one channel entry of a position map: a dropped entry is never overwritten
 Upd(S, c, v) == IF \E e \in S : e.ch = c /\ e.d THEN S
@@ -136,7 +141,7 @@ RMW(op, d, ok, d2) ==
 Outcomes(F, be, op, d) ==
     LET R == op.root  T == op.task  C == op.coll IN
     CASE op.op = "putTask" -> One(op, d, PutI(d, NewInfo(R, op)))
-      [] op.op = "putPos"  -> One(op, d, PutP(d, [NewPos(R, op, C) EXCEPT !.o = {}, !.g = {}]))
+      [] op.op = "putPos"  -> One(op, d, PutPB(be, d, [NewPos(R, op, C) EXCEPT !.o = {}, !.g = {}]))
       [] op.op = "getTask" ->
            LET rows == InfoScan(F, be, d, R, T) IN
            IF rows = {} THEN Read(op, d, {}, 0, TRUE)
@@ -151,12 +156,12 @@ Outcomes(F, be, op, d) ==
            ELSE UNION {RMW(op, d, StateOk(x, op), PutI(d, SetInfo(x, R, op))) : x \in rows}
       [] op.op = "updPos" ->
            LET rows == PosScan(F, be, d, R, T, C) IN
-           IF rows = {} THEN RMW(op, d, TRUE, PutP(d, NewPos(R, op, IF C = 0 THEN -1 ELSE C)))
-           ELSE UNION {RMW(op, d, TRUE, PutP(d, UpdPos(x, R, op))) : x \in PickPos(rows)}
+           IF rows = {} THEN RMW(op, d, TRUE, PutPB(be, d, NewPos(R, op, IF C = 0 THEN -1 ELSE C)))
+           ELSE UNION {RMW(op, d, TRUE, PutPB(be, d, UpdPos(x, R, op))) : x \in PickPos(rows)}
       [] op.op = "dropPos" ->
            LET rows == PosScan(F, be, d, R, T, C) IN
            IF rows = {} THEN RMW(op, d, FALSE, d)
-           ELSE UNION {RMW(op, d, TRUE, PutP(d, DropPos(x, R))) : x \in rows}
+           ELSE UNION {RMW(op, d, TRUE, PutPB(be, d, DropPos(x, R))) : x \in rows}
       [] op.op = "delPos" -> One(op, d, [d EXCEPT !.p = @ \ PosDel(F, be, d, R, T, C)])
       [] op.op = "delTask" ->
            \* calls: 1 Get, 2 Txn, 3 Delete(info, txn), 4 Delete(positions, txn), 5 commit function,
@@ -189,7 +194,9 @@ G(d, recs, n) == [db |-> d, recs |-> recs, n |-> n]
 Good(op, b) ==
     LET R == op.root  T == op.task  C == op.coll IN
     CASE op.op = "putTask" -> {G(PutI(b, NewInfo(R, op)), {}, 0)}
-      [] op.op = "putPos"  -> {G(PutP(b, [NewPos(R, op, C) EXCEPT !.o = {}, !.g = {}]), {}, 0)}
+      [] op.op = "putPos"  -> \* (plans write fresh records only; over an existing record the stored name may survive)
+                              LET r == [NewPos(R, op, C) EXCEPT !.o = {}, !.g = {}] IN
+                              {G(PutP(b, r), {}, 0)} \cup {G(PutP(b, [r EXCEPT !.name = x.name]), {}, 0) : x \in OwnP(b, R, T, C)}
       [] op.op = "getTask" -> {G(b, {ProjI(x)}, 1) : x \in OwnI(b, R, T)}
       [] op.op = "getAll"  -> LET S == {x \in b.i : x.root = R} IN
                               IF S = {} THEN {} ELSE {G(b, {ProjI(x) : x \in S}, Cardinality(S))}
